@@ -228,6 +228,79 @@ func c18LongHistory(id string, requests int, seed int64) core.Scenario {
 
 // several goroutines send requests through ONE SimpleHTTP at the same time (the transport is slow): every request gets
 // its own complete pass through the chain
+// c18DefaultTransport: a SimpleHTTP installed as the process-wide http.DefaultTransport (so that plain http.Client{}
+// requests are intercepted too), combined with SetHTTPClient of further default clients (Transport == nil): every
+// request still runs each interceptor once, in order, then reaches the real transport once; nothing recurses.
+func c18DefaultTransport(id string) core.Scenario {
+	return core.Scenario{ID: id, Class: "interceptor-chain.default-transport", Run: func(c *core.Ctx) {
+		c.Distinct(id)
+		saved := http.DefaultTransport
+		defer func() { http.DefaultTransport = saved }()
+		var mu sync.Mutex
+		var log []string
+		real := roundTripFunc(func(r *http.Request) (*http.Response, error) {
+			mu.Lock()
+			log = append(log, "T:"+r.Header.Get("X-A")+r.Header.Get("X-B"))
+			mu.Unlock()
+			return &http.Response{StatusCode: 200, Status: "200 OK", Proto: "HTTP/1.1", ProtoMajor: 1, ProtoMinor: 1, Header: http.Header{}, Body: io.NopCloser(strings.NewReader(`{}`)), Request: r}, nil
+		})
+		http.DefaultTransport = real
+		errLoop := errors.New("verif: the interceptor chain was entered more than 8 times for one request")
+		var calls int
+		mk := func(name string) *network.Interceptor {
+			f := network.Interceptor(func(r *http.Request) error {
+				mu.Lock()
+				defer mu.Unlock()
+				calls++
+				if calls > 16 {
+					return errLoop // cut a runaway chain before it overflows the stack
+				}
+				log = append(log, name)
+				r.Header.Set("X-"+name, name)
+				return nil
+			})
+			return &f
+		}
+		sh := network.NewSimpleHTTP()
+		sh.AddInterceptor(mk("A"), mk("B"))
+		http.DefaultTransport = sh // intercept everything of this process
+		step := func(what string, cl *http.Client) bool {
+			c.Eval(1)
+			mu.Lock()
+			log, calls = nil, 0
+			mu.Unlock()
+			req, _ := http.NewRequest("GET", "http://verif.invalid/x", nil)
+			resp, err := cl.Do(req)
+			if resp != nil && resp.Body != nil {
+				resp.Body.Close()
+			}
+			mu.Lock()
+			got := strings.Join(log, " ")
+			mu.Unlock()
+			if err != nil || got != "A B T:AB" {
+				c.Violationf("default-transport:wrong-calls", map[string]any{"scenario": id, "step": what}, "a SimpleHTTP with interceptors A, B is installed as http.DefaultTransport; %s: call log %q, error %v (want \"A B T:AB\", nil)", what, got, err)
+				return false
+			}
+			return true
+		}
+		if !step("request through the SimpleHTTP's own client", sh.GetHTTPClient()) {
+			return
+		}
+		if !step("request through a plain http.Client{} (Transport nil)", &http.Client{}) {
+			return
+		}
+		for k := 1; k <= 3; k++ {
+			sh.SetHTTPClient(&http.Client{})
+			if !step(fmt.Sprintf("after SetHTTPClient(&http.Client{}) #%d, request through GetHTTPClient()", k), sh.GetHTTPClient()) {
+				return
+			}
+			if !step(fmt.Sprintf("after SetHTTPClient(&http.Client{}) #%d, request through a plain http.Client{}", k), &http.Client{}) {
+				return
+			}
+		}
+	}}
+}
+
 func c18Concurrent(id string, goroutines, each int, seed int64) core.Scenario {
 	return core.Scenario{ID: id, Class: "interceptor-chain.concurrent", Run: func(c *core.Ctx) {
 		c.Eval(int64(goroutines * each))
